@@ -93,6 +93,10 @@ impl Ctx {
         *self.counters.entry(l.to_string()).or_insert(0) += n;
     }
     pub fn note(&mut self, f: impl FnOnce() -> String) {
+        if self.verbose && LIVE_NOTES.load(Ordering::Relaxed) {
+            eprintln!("{}", f());
+            return;
+        }
         if self.verbose {
             let cap = note_cap();
             if self.desc.len() < cap {
@@ -734,8 +738,27 @@ pub fn replay_one(prop: &Prop, part_name: &str, values: &[u64], verbose: bool) -
     Ok(run_case(prop, part, Src::replay(values), verbose, &none, true))
 }
 
+static LIVE_NOTES: AtomicBool = AtomicBool::new(false);
+
+struct StderrLogger;
+impl log::Log for StderrLogger {
+    fn enabled(&self, _m: &log::Metadata) -> bool {
+        true
+    }
+    fn log(&self, r: &log::Record) {
+        eprintln!("      [smoltcp {}] {}", r.level(), r.args());
+    }
+    fn flush(&self) {}
+}
+static LOGGER: StderrLogger = StderrLogger;
+
 pub fn replay_cmd(prop: &Prop, path: &str) -> i32 {
     install_panic_hook();
+    if std::env::var("VERIF_LOG").is_ok() {
+        let _ = log::set_logger(&LOGGER);
+        log::set_max_level(log::LevelFilter::Trace);
+        LIVE_NOTES.store(true, Ordering::Relaxed);
+    }
     let rf = match read_replay(path) {
         Ok(r) => r,
         Err(e) => {
